@@ -428,6 +428,11 @@ def gen_ir_spec(rng, tags, stream):
           "returns": None if ir["returns"] is None else OrderedDict((k, dict(v)) for k, v in ir["returns"].items())}
     _maybe_long(rng, ir)
     _maybe_long_token(rng, ir, tags)
+    # strata (see above): a default of any member type under a Union; literal displays of two or more (mixed) elements
+    if rng.random() < 0.08:
+        add_param(rng, ir, union_default_param(rng, tags))
+    if rng.random() < 0.08:
+        add_param(rng, ir, literal_display_param(rng, tags))
     if stream == "malformed":
         r = rng.random()
         tags.append("malformed")
